@@ -503,6 +503,14 @@ def _idkey(f):
         elif isinstance(x, ast.Compare) and len(x.ops) == 1 and isinstance(x.ops[0], (ast.In, ast.NotIn)) \
                 and isinstance(x.comparators[0], ast.Name) and x.comparators[0].id in tables:
             name, key = x.comparators[0].id, x.left
+        grouping = name is not None and any(
+            isinstance(c_, ast.Call) and isinstance(c_.func, ast.Attribute) and c_.func.attr == "append"
+            and ((isinstance(c_.func.value, ast.Subscript) and dotted(c_.func.value.value) == name)
+                 or (isinstance(c_.func.value, ast.Call) and isinstance(c_.func.value.func, ast.Attribute)
+                     and c_.func.value.func.attr == "setdefault" and dotted(c_.func.value.func.value) == name))
+            for c_ in ast.walk(fn))
+        if grouping:
+            continue        # id -> list of the phases that have it: nothing is lost
         if key is not None and isinstance(key, ast.Attribute) and key.attr == "id" and name not in seen:
             seen.add(name)
             out.append((x, f"'{name}' is kept across the loop over the phases and keyed by "
@@ -706,8 +714,9 @@ def _memokey(f):
                     for x_ in e.elts:
                         if isinstance(x_, ast.Attribute) and x_.attr == "id" and isinstance(x_.value, ast.Name):
                             fixed.add(x_.value.id)
-            elif isinstance(e, ast.Call) and isinstance(e.func, ast.Name) and e.func.id in (
-                    "frozenset", "tuple", "sorted", "str", "repr", "set", "list") and len(e.args) == 1:
+            elif isinstance(e, ast.Call) and (dotted(e.func) or "") in (
+                    "frozenset", "tuple", "sorted", "str", "repr", "set", "list", "id",
+                    "pickle.dumps", "dumps") and len(e.args) >= 1:
                 from_key(e.args[0], depth)
             elif isinstance(e, ast.Attribute) and dotted(e):
                 fixed_attrs.add(dotted(e))
